@@ -406,6 +406,17 @@ def merge(it, pred: SymBool, tv, fv):
     raise AnalysisError(f"cannot merge branches {type(tv).__name__} / {type(fv).__name__}")
 
 
+def _it_product(it, a, k):
+    import itertools as _itx
+
+    rep = k.get("repeat", 1)
+    if not isinstance(rep, int):
+        from .values import to_rat as _tr
+
+        rep = int(_tr(rep).const_value())
+    return list(_itx.product(*[list(x) for x in a], repeat=rep))
+
+
 def _partial(it, a, k):
     return Partial(a[0], a[1:], k)
 
@@ -550,6 +561,7 @@ def install(interp):
     H["np.arange"] = _arange
     H["lax.cond"] = _lax_cond
     H["jax.lax.cond"] = _lax_cond
+    H["itertools.product"] = _it_product
     H["functools.partial"] = _partial
     H["partial"] = _partial
     for n in ("warnings.warn", "logger.warning", "logger.info", "logger.debug", "logging.warning", "loguru.logger.warning", "loguru.logger.info", "loguru.logger.debug", "jax.debug.print", "jax.debug.callback"):
